@@ -28,9 +28,9 @@ var sizes = []int{0, 1, 63, 64, 65, 127, 128, 129, 255, 256, 257, 511, 512, 513,
 
 func init() {
 	vexplore.Register("C17", func(tier string) []*vexplore.Scenario {
-		b := 1
+		b := 2
 		if tier == "thorough" {
-			b = 2
+			b = 3
 		}
 		pool := vsched.Config{PoolPoints: false}
 		out := []*vexplore.Scenario{
